@@ -4,7 +4,7 @@ from ..gen import G, Qty
 from ..common import BookCase, book_obs, frac_str, sig, run_apps, app, out_of
 from ..core import unhx
 
-THEOREMS = ['resolve_correct', 'undefined_is_itself', 'paths_unfold', 'book_ext', 'resolve_order_irrelevant']
+THEOREMS = ['resolve_correct', 'undefined_is_itself', 'paths_unfold', 'book_ext', 'resolve_order_irrelevant', 'resolve_idempotent']
 LEVEL = 'proof'
 RULE = ('random layered DAG books (sharing, repeated ingredients, negative/zero/fractional coefficients, empty recipes, '
         'file order shuffled) x N in 1..12 x both public entry points x explicit visiting orders; '
